@@ -835,7 +835,7 @@ def nest_dispatch(ctx: Ctx) -> None:
         ok = len(comps) == 1
         if ok:
             g = comps[0].generators[0]
-            ok = not g.ifs and isinstance(g.iter, ast.Name) and isinstance(g.target, ast.Name) and comps[0].elt.args and isinstance(comps[0].elt.args[0], ast.Name) and comps[0].elt.args[0].id == g.target.id and len(comps[0].generators) == 1
+            ok = not g.ifs and isinstance(g.iter, (ast.Name, ast.Attribute)) and isinstance(g.target, ast.Name) and comps[0].elt.args and isinstance(comps[0].elt.args[0], ast.Name) and comps[0].elt.args[0].id == g.target.id and len(comps[0].generators) == 1
             if ok:
                 fl = flow_of(repo, d)
                 rs = fl.roots(g.iter, cfg_of(d).node_of(comps[0]))
@@ -855,6 +855,8 @@ def nest_dispatch(ctx: Ctx) -> None:
                 f"{d.name}: the dispatcher looks predecessors up in the dictionary the factory received (`{unparse(a1, 40)}`)"
                 + ("" if okd else " — a dictionary built inside the fused function (cache / wrapper): repeated occurrences of one predecessor key no longer get their own key-function result"),
                 sel=f"dispatch:own-dict:{d.name}",
+                # (a locally built dictionary is positive evidence, whoever builds it)
+                firm=isinstance(a1, ast.Name) and bool(flow_of(repo, holder).rdefs(a1.id, cfg_of(holder).node_of(comps[0]))),
             )
     # (iv) pass-through on missing name
     k1 = repo.get(f"{A.PBW}._apply_blockwise_key_func_to_chunk_key")
@@ -914,11 +916,32 @@ def nest_dispatch(ctx: Ctx) -> None:
     # generator-ness
     mf = repo.get(f"{A.PBW}.make_fused_function")
     rets = [n for n in mf.own_nodes() if isinstance(n, ast.Return)]
-    ok = False
-    for r in rets:
-        v = r.value
-        if isinstance(v, ast.IfExp) and "isgeneratorfunction" in unparse(v.test) and unparse(v.body).endswith("generator") and unparse(v.orelse).endswith("single"):
-            ok = mentions_name(v.test, mf.params[0])
+    mcfg = cfg_of(mf)
+
+    def _isgen_test(t: ast.AST) -> bool:
+        return isinstance(t, ast.Call) and (attr_chain(t.func) or "").split(".")[-1] == "isgeneratorfunction" and len(t.args) == 1 and isinstance(t.args[0], ast.Name) and t.args[0].id == mf.params[0]
+
+    def _yields(h: Def) -> bool:
+        return any(isinstance(x, (ast.Yield, ast.YieldFrom)) for x in h.own_nodes())
+
+    verdicts = []
+    for r in mcfg.returns():
+        v = r.stmt.value
+        arms = []
+        if isinstance(v, ast.IfExp) and _isgen_test(v.test):
+            arms = [(v.body, True), (v.orelse, False)]
+        elif v is not None:
+            pol_ = None
+            for t, pol in facts_at(mcfg, r.id):
+                if _isgen_test(t):
+                    pol_ = pol
+            arms = [(v, pol_)]
+        for e, pol_ in arms:
+            h = mf.children.get(e.id) if isinstance(e, ast.Name) else None
+            if h is not None and h.is_func and pol_ is not None:
+                verdicts.append(_yields(h) == pol_)
+    ctx.need(len(verdicts) >= 2, "make_fused_function: which inner function is returned for generator / plain outer functions is not recognised")
+    ok = all(verdicts)
     ctx.ob(mf, rets[0] if rets else mf.node, ok, "the fused function is a generator exactly when the outer function is one (multiple outputs)", sel="dispatch:generator")
     g = repo.get(f"{A.PBW}.make_fused_function.fused_func_generator")
     ok = any(isinstance(n, ast.YieldFrom) for n in g.own_nodes())
